@@ -122,7 +122,7 @@ class Exec:
             self.server = self.local.Server(self.sched)
             for c in sc["clients"]:
                 reader = self.loop.do(lambda: asyncio.StreamReader(limit=2**16, loop=self.loop))
-                writer = vloop.FakeWriter(fail_drain=c.get("fail_drain", False))
+                writer = vloop.FakeWriter(fail_drain=c.get("fail_drain", False), block_drain=c.get("block_drain", False))
                 writer.snapshots = []
                 handler = self.loop.do(self.loop.create_task, self.server.handle_connection(reader, writer))
                 self.clients.append(dict(name=c["name"], ops=c["ops"], after=c.get("after"), i=0, reader=reader, writer=writer, handler=handler, healthy=c.get("healthy", False), expect=0, parsed=0, enq_order=[]))
@@ -156,6 +156,8 @@ class Exec:
             f["spawns"] += 1
             if f["spawns"] > 1:
                 self.violations.append(("C13", "task spawned twice", dict(task=idx)))
+            if self.sc["tasks"][idx].get("extra_deps"):
+                self.violations.append(("C11", "task started although it depends on an id the pool never issued", dict(task=idx, deps=list(self.sc["tasks"][idx]["extra_deps"]))))
             # C11: every dependency finished with exit status 0 and is COMPLETED
             for d in self.sc["tasks"][idx]["deps"]:
                 df = self.facts[d]
